@@ -10,7 +10,7 @@ RULE = ("generated applications (1-3 commands, sub-commands to depth 2; default 
         "arguments and 0-3 options per command with every flag kind; descriptions absent / short / several lines; defaults of every "
         "type incl. floats (nan, inf), '' and []; names that look like style tags; names of 20-30 characters; help texts with "
         "{script_name} / {command_name} and with braces that are no placeholders) x every command path and the application page x "
-        "terminal widths {40, 47, 60, 80, 120, 200} (thorough: 40..200 sampled) x ANSI / plain; for every tenth tree every page "
+        "terminal widths {40, 47, 60, 80, 120, 200} (thorough: 40..200 sampled) x ANSI / plain; for every twelfth tree every page "
         "at the widths needed_width + d, d in -2..12 (the guard of the width claim and the text widths 1..13 behind it), ANSI and "
         "plain; plus textwrap.wrap alone over adversarial ASCII texts x widths 1..40; 'help <path>' / '<path> --help' / '<path> -h' "
         "through DefaultApplicationConfig runs at COLUMNS 60 / 80 / 120, compared with each other and with the model's page of the "
@@ -187,9 +187,9 @@ def gen(rng, tier, info):
         # needed_width is read from the layout elements), ANSI and plain
         # (the model's formatter is quadratic in the length of a message: a page at text width 1 costs it seconds, so the
         # decorated page at d = 0 is asked of every fourth of these trees only)
-        if i % 10 == 1:
+        if i % 12 == 1:
             for d in SWEEP:
-                for ansi in ((0, 1) if d != 0 or i % 40 == 1 else (0,)):
+                for ansi in ((0, 1) if d != 0 or i % 48 == 1 else (0,)):
                     cases.append({"k": 1, "tree": t, "d": d, "ansi": ansi})
                     for p in paths(t):
                         cases.append({"k": 0, "tree": t, "path": p, "d": d, "ansi": ansi})
@@ -285,17 +285,22 @@ def wire_from(c, o):
 
 
 def help_target_path(t, idx):
-    """the command whose page 'help <path>' shows: the resolver goes on from the named command to its (first) default
-    sub-command, as it does when the command is run"""
+    """the command whose page 'help <path>' shows: the resolver goes on from the named command to a default sub-command, as it
+    does when the command is run - the first one the (rest of the) line can be parsed for, i.e. here, the line naming nothing
+    else, the first without a required argument of its own or inherited; the first one if there is none
+    (DefaultResolver.process_default_commands)"""
     idx = list(idx)
     while True:
         cur = {"subs": t["cmds"]}
+        inherited = False
         for i in idx:
             cur = cur["subs"][i]
+            inherited = inherited or any(a["flags"] & G.A_REQ for a in cur["args"])
         dflt = [i for i, s in enumerate(cur["subs"]) if s["enabled"] and (s["default"] or s["anonymous"])]
         if not dflt:
             return idx
-        idx.append(dflt[0])
+        ok = [i for i in dflt if not inherited and not any(a["flags"] & G.A_REQ for a in cur["subs"][i]["args"])]
+        idx.append((ok or dflt)[0])
 
 
 def describe(c):
@@ -416,6 +421,49 @@ def live_global_options(t):
     return out
 
 
+def layout_elems(layout):
+    from clikit.ui.components import Paragraph, LabeledParagraph, EmptyLine, NameVersion
+    elems = []
+    for ind, e in zip(layout._indentations, layout._elements):
+        if isinstance(e, LabeledParagraph):
+            elems.append([ind, 1, S(e.label), S(e.text), e.padding, int(e.is_aligned())])
+        elif isinstance(e, Paragraph):
+            elems.append([ind, 0, S(e._text)])
+        elif isinstance(e, EmptyLine):
+            elems.append([ind, 2])
+        elif isinstance(e, NameVersion):
+            cfg = e._config
+            if cfg.display_name and cfg.version:
+                text = "{} version <c1>{}</c1>".format(cfg.display_name, cfg.version)
+            elif cfg.display_name:
+                text = "{}".format(cfg.display_name)
+            else:
+                text = "Console Tool"
+            elems.append([ind, 0, S(text)])
+        else:
+            elems.append([ind, 9, S(type(e).__name__)])
+    return elems
+
+
+def target_elems(t, idx):
+    """the layout elements of the page of the help target (to know how wide a terminal that page needs)"""
+    from clikit.io import BufferedIO
+    from clikit.formatter import PlainFormatter
+    from clikit.ui.help import CommandHelp
+    from clikit.ui.layout import BlockLayout
+    app = default_app(t)
+    cur = t["cmds"][idx[0]]
+    cmd = app.get_command(cur["name"])
+    for i in idx[1:]:
+        cur = cur["subs"][i]
+        cmd = cmd.get_sub_command(cur["name"])
+    helper = CommandHelp(cmd)
+    helper._formatter = BufferedIO(formatter=PlainFormatter())
+    layout = BlockLayout()
+    helper._render_help(layout)
+    return layout_elems(layout)
+
+
 def run_impl(c):
     if c["k"] == 3:
         path = " ".join(c["names"])
@@ -429,8 +477,15 @@ def run_impl(c):
                 del os.environ["COLUMNS"]
             else:
                 os.environ["COLUMNS"] = old
-        page = [0, S(a[1])] if a[0] == 0 and isinstance(a[1], str) else [-1, 109]
-        return [int(a == b == d), 1 if a[0] == 0 else 0, [S(repr(x)[:3000]) for x in (a, b, d)], c.get("cols", 80), gopts, page]
+        if a[0] == "exc":
+            page = [-1, 1 if a[1] == "ValueError" else 109]
+        else:
+            page = [0, S(a[1])] if a[0] == 0 else [-1, 109]
+        try:
+            elems = target_elems(c["tree"], help_target_path(c["tree"], c["path"]))
+        except Exception:  # noqa
+            elems = []
+        return [int(a == b == d), 1 if a[0] == 0 else 0, [S(repr(x)[:3000]) for x in (a, b, d)], c.get("cols", 80), gopts, page, elems]
     if c["k"] == 2:
         try:
             return [0, [S(l) for l in textwrap.wrap(c["text"], c["width"])]]
@@ -441,7 +496,6 @@ def run_impl(c):
     from clikit.ui.rectangle import Rectangle
     from clikit.ui.help import ApplicationHelp, CommandHelp
     from clikit.ui.layout import BlockLayout
-    from clikit.ui.components import Paragraph, LabeledParagraph, EmptyLine, NameVersion
     try:
         app = build(c["tree"])
     except Exception as e:  # noqa
@@ -465,25 +519,7 @@ def run_impl(c):
         helper._render_help(layout)
     except Exception as e:  # noqa
         return [[], err(e), c.get("W", 0), S("%s: %s" % (type(e).__name__, e))[:200]]
-    elems = []
-    for ind, e in zip(layout._indentations, layout._elements):
-        if isinstance(e, LabeledParagraph):
-            elems.append([ind, 1, S(e.label), S(e.text), e.padding, int(e.is_aligned())])
-        elif isinstance(e, Paragraph):
-            elems.append([ind, 0, S(e._text)])
-        elif isinstance(e, EmptyLine):
-            elems.append([ind, 2])
-        elif isinstance(e, NameVersion):
-            cfg = e._config
-            if cfg.display_name and cfg.version:
-                text = "{} version <c1>{}</c1>".format(cfg.display_name, cfg.version)
-            elif cfg.display_name:
-                text = "{}".format(cfg.display_name)
-            else:
-                text = "Console Tool"
-            elems.append([ind, 0, S(text)])
-        else:
-            elems.append([ind, 9, S(type(e).__name__)])
+    elems = layout_elems(layout)
     W = c["W"] if "W" in c else max(1, needed_width(elems) + c["d"])
     io.set_terminal_dimensions(Rectangle(W, 50))
     try:
@@ -570,7 +606,7 @@ KNOWN = "help-text-cut-in-markup:"
 
 def canon_impl(c, o):
     if c["k"] == 3:
-        return o[5] if o[0] == 1 and o[1] == 1 else [-2, o[0], o[1]]
+        return o[5] if o[0] == 1 else [-2, o[0], o[1]]     # the page of the three runs (or the kind of their failure)
     if c["k"] == 2 or o[0] == -1:
         return o
     return [o[0], o[1], words_fit_page(o[0], o[2]) if o[0] else 0]
@@ -591,7 +627,8 @@ def oracle(c, o):
         if o[0] != 1:
             return "help-command-and-help-option-print-different-pages"
         if o[1] != 1:
-            return "help-run-failed"
+            # on a terminal narrower than the labels of the page need, a failing run is outside the property's guard
+            return None if o[6] and c.get("cols", 80) < needed_width(o[6]) else "help-run-failed"
         # which page: the USAGE block starts with the synopsis of the named command ('app server add ...'; a page of another
         # command starts with other names, a command's own name is in brackets only on the page of its parent)
         lines = visible_lines(unS(o[5][1]))
